@@ -79,7 +79,7 @@ pub struct Engine<'a> {
 pub fn tag_exemptions(cat: &Catalogue, ty: &Ty) -> Vec<String> {
     fn go(cat: &Catalogue, ty: &Ty, seen: &mut Vec<usize>, out: &mut Vec<String>) {
         match ty {
-            Ty::Sc(_) | Ty::Json | Ty::Cs(_) => {}
+            Ty::Sc(_) | Ty::Json | Ty::Phantom | Ty::Cs(_) => {}
             Ty::P(t) | Ty::Opt(t) | Ty::Bx(t) | Ty::Vec(t) | Ty::HSet(t) | Ty::BSet(t) | Ty::Arr(t, _) => go(cat, t, seen, out),
             Ty::Tup(ts) => ts.iter().for_each(|t| go(cat, t, seen, out)),
             Ty::Map { val, .. } => go(cat, val, seen, out),
@@ -116,7 +116,7 @@ pub fn contains_json_target(cat: &Catalogue, ty: &Ty) -> bool {
     fn go(cat: &Catalogue, ty: &Ty, seen: &mut Vec<usize>) -> bool {
         match ty {
             Ty::Json => true,
-            Ty::Sc(_) | Ty::Cs(_) => false,
+            Ty::Sc(_) | Ty::Phantom | Ty::Cs(_) => false,
             Ty::P(t) | Ty::Opt(t) | Ty::Bx(t) | Ty::Vec(t) | Ty::HSet(t) | Ty::BSet(t) | Ty::Arr(t, _) => go(cat, t, seen),
             Ty::Tup(ts) => ts.iter().any(|t| go(cat, t, seen)),
             Ty::Map { val, .. } => go(cat, val, seen),
